@@ -51,6 +51,7 @@ validate_ext = _load("validate_ext")
 toolgen = _load("toolgen")
 image_stage = _load("image_stage")       # whole-image stage (coq/Image): see props/C03/image_stage.py
 xattr_stage = _load("xattr_stage")       # xattr section (coq/ImgXattr): see props/C03/xattr_stage.py
+valid_stage = _load("valid_stage")       # valid_image_full (coq/ImgValid): see props/C03/valid_stage.py
 
 ENV = dict(os.environ, ASAN_OPTIONS="detect_leaks=0")
 COMP_NAME = {1: "gzip", 2: "lzma", 4: "xz", 5: "lz4", 6: "zstd"}
@@ -389,6 +390,13 @@ def run(ctx):
                       "the whole-image model (coq/Image) or its harness no longer builds against the current tree: %s" % (str(e)[-600:],),
                       dict(kind="proof obligation / model build", detail=str(e)[-3000:]), no_input=True)
     try:
+        drv_valid = valid_stage.build(core, HERE)
+    except Exception as e:  # the extended validator no longer builds against the current tree
+        drv_valid = None
+        ctx.violation("valid-full-model-build-failed",
+                      "the extended image validator (coq/ImgValid) no longer compiles / extracts against the current tree: %s" % (str(e)[-600:],),
+                      dict(kind="proof obligation / model build", detail=str(e)[-3000:]), no_input=True)
+    try:
         h_xattr, drv_xattr = xattr_stage.build(B, core, info, HERE)
         dst = os.path.join(bindir, "c03_h_xattr_flush")
         shutil.copy2(h_xattr, dst)
@@ -413,6 +421,9 @@ def run(ctx):
         "vlib/sqfsimg.py + props/C03/validate_ext.py + props/C03/cases.py:EVAL (independent Python decoders / validators, "
         "written from doc/format.adoc; system zlib/liblzma/liblz4/libzstd for decompression)",
         "ASan/UBSan verdict on the component harness runs",
+        "props/C03/valid_driver.ml + image_stubs.c (decompressor oracle of the extracted valid_image_full: metadata blocks with capacity "
+        "8192, data / fragment blocks with the capacity the validator asks for), props/C03/valid_stage.py (byte surgery: re-storing the "
+        "last inode table block / a lookup table block uncompressed and shifting the absolute positions behind it)",
     ]
     ctx.assumptions += [
         "compressor oracle contract (include/sqfs/compressor.h): compress b = CData c -> |c| <= |b| /\\ uncompress c = Some b; "
@@ -448,7 +459,7 @@ def run(ctx):
             ctx.coverage["evaluations"] = res["cases"]
             ctx.coverage["rule"] = "replay of whole-image exact-tie cases"
         elif kind == "image-real" and h_image:
-            res = image_stage.real_images(ctx, tools, drv_image, [r["spec"]], "thorough")
+            res = image_stage.real_images(ctx, tools, drv_image, [r["spec"]], "thorough", drv_valid)
             ctx.coverage["evaluations"] = 1
             ctx.coverage["rule"] = "replay of one packer run read by the extracted reader"
         elif kind == "xattr-lines" and h_xattr:
@@ -469,7 +480,7 @@ def run(ctx):
     # directories: they run beside the component tie / compressor contract / tool search
     bg = ThreadPoolExecutor(max_workers=2)
     t0 = time.time()
-    f_img = bg.submit(image_stage.stage, ctx, h_image, drv_image, tools, toolgen, ctx.seed, ctx.tier) if h_image else None
+    f_img = bg.submit(image_stage.stage, ctx, h_image, drv_image, tools, toolgen, ctx.seed, ctx.tier, drv_valid) if h_image else None
     f_xat = bg.submit(xattr_stage.stage, ctx, h_xattr, drv_xattr, drv_image, tools, toolgen, ctx.seed, ctx.tier) if h_xattr else None
     cases = cases_mod.all_cases(rnd, ctx.tier)
     comp = component_tie(ctx, h, drv, cases)
@@ -480,9 +491,12 @@ def run(ctx):
     img = None
     if f_img:
         img = f_img.result()
-        ctx.log("whole-image stage: %d exact cases (%d equal), %d real images (%d valid, %d trees compared), done %.1fs after start"
+        vfs = img["real"].get("valid_full") or {}
+        ctx.log("whole-image stage: %d exact cases (%d equal), %d real images (%d valid, %d trees compared; valid_image_full: %d of %d "
+                "accepted, %d mutated images rejected by clauses %s), done %.1fs after start"
                 % (img["exact"]["cases"], img["exact"]["exact_equal"], img["real"]["images"], img["real"]["valid"],
-                   img["real"]["trees_read"], time.time() - t0))
+                   img["real"]["trees_read"], vfs.get("accepted", 0), vfs.get("images", 0), vfs.get("mutated_images", 0),
+                   sorted(int(k) for k in (vfs.get("rejected_by_clause") or {})), time.time() - t0))
     xat = None
     if f_xat:
         xat = f_xat.result()
@@ -521,7 +535,12 @@ def run(ctx):
         "stored in a later compressed block, whole blocks of equal bytes, seeded random sets; store / RLE / zero-run-length "
         "compressors), the extracted xattr_tail + v_xattr + reader specification on the C bytes compared with the recorded sets, "
         "and gensquashfs -A images with 620 / 1100 distinct sets through valid_image, v_xattr, v_xattr_inodes and the reader "
-        "specification" % ctx.seed)
+        "specification; valid_image_full stage (coq/ImgValid): the extracted validator with the data / cross-reference clauses "
+        "(v_frag, v_data incl. decompression of every data and fragment block, v_xattr_inodes, v_export, v_links) on every real "
+        "image of the whole-image stage and on up to 3 (thorough: 6) byte-surgery mutations of each small image (13 kinds: size "
+        "word above the block size, uncompressed bit flipped, blocks_start before the data area, corrupted compressed block, "
+        "fragment index / offset / entry start / entry size out of range, xattr index out of range, export slots swapped, link "
+        "count + 1, directory link count + 1, parent inode number), every verdict compared with validate_ext" % ctx.seed)
     ctx.coverage["component"] = comp
     ctx.coverage["compressor_contract"] = cc
     ctx.coverage["tool_level"] = ts
@@ -538,3 +557,4 @@ def setup():
                             stubs_c=os.path.join(HERE, "image_stubs.c"), cclibs=["-lz", "-llzma", "-llz4", "-lzstd"])
     core.build_model_driver("C03xattr", "ExtractC03Xattr.v", os.path.join(HERE, "xattr_driver.ml"),
                             stubs_c=os.path.join(HERE, "image_stubs.c"), cclibs=["-lz", "-llzma", "-llz4", "-lzstd"])
+    valid_stage.build(core, HERE)
